@@ -16,6 +16,23 @@ func init() {
 	gens["Src_bodylimit_fn.v"] = genGoLiteBodyLimit
 	gens["Src_response.v"] = genGoLiteResponse
 	gens["Src_context.v"] = genGoLiteContext
+	gens["Src_echo.v"] = genGoLiteEcho
+}
+
+func genGoLiteEcho(repo string) (string, error) {
+	f, err := parseFile(repo, "echo.go")
+	if err != nil {
+		return "", err
+	}
+	fd := findFunc(f, "*Echo", "findRouter")
+	if fd == nil {
+		return "", fmt.Errorf("Echo.findRouter not found")
+	}
+	s, err := goliteFunc(fd, "find_router", goliteCfg{ignore: map[string]bool{}, cells: map[string]bool{"len(e.routers)": true}, extern: map[string]bool{}})
+	if err != nil {
+		return "", err
+	}
+	return goliteHeader + "(* echo.go: Echo.findRouter - which router serves a Host value.  The lookup e.routers[host] is external: (router, ok) come from the input stream. *)\n" + s, nil
 }
 
 type goliteCfg struct {
@@ -235,6 +252,21 @@ func (g *goliteCfg) stmt(s ast.Stmt) ([]string, error) {
 				}
 				args, _ := g.exprs(ce.Args)
 				return []string{fmt.Sprintf("SCall [%s] %s %s", strings.Join(xs, "; "), g.str(lit(ce.Fun)), args)}, nil
+			}
+		}
+		if len(v.Lhs) == 2 && len(v.Rhs) == 1 {
+			// v, ok := m[k]: the map is outside the function - its answer comes from the input stream
+			if ie, ok := v.Rhs[0].(*ast.IndexExpr); ok {
+				var xs []string
+				for _, l := range v.Lhs {
+					id, ok := l.(*ast.Ident)
+					if !ok {
+						return nil, fmt.Errorf("results of a map lookup must go to plain variables")
+					}
+					g.locals[id.Name] = true
+					xs = append(xs, g.str(id.Name))
+				}
+				return []string{fmt.Sprintf("SCall [%s] %s []", strings.Join(xs, "; "), g.str(lit(ie)))}, nil
 			}
 		}
 		if len(v.Lhs) != len(v.Rhs) {
